@@ -270,6 +270,11 @@ Definition cmp_calls (impl_term : N) (mc mcx ic : val) : list val :=
 Definition cmp_obs (fused : bool) (model impl : val) (mx : list val) (mcx : val) : list val :=
   match model, impl with
   | VL [ms; VL mh; mh0; me0; VL mp; mc], VL [is_; VL ih; ih0; ie0; VL ip; ic] =>
+      (* Where the multipart length cannot be announced in 64 bits the code answers 413; the properties allow
+         that (C01, C13) and equally the complete 200 (C03: "either a multipart 206 ... or a complete 200").
+         A 200 where the model says 413 is therefore no broken correspondence: it is compared under its own
+         field name, and what the 200 must look like is the oracles' business *)
+      if val_eqb ms (VN 413) && val_eqb is_ (VN 200) then cmp_field (bs "status.413-or-200") ms is_ else
       cmp_field F_STATUS ms is_
       ++ (if val_eqb ms is_ then cmp_hdrs mh ih else [])     (* headers of different statuses are not comparable *)
       ++ cmp_field F_HINT0 mh0 ih0 ++ cmp_field F_EOS0 me0 ie0
